@@ -84,6 +84,7 @@ type reqRun struct {
 	maxDelay   int
 	holdMs     int
 	noDrops    bool
+	variant    int64
 }
 
 func (rr *reqRun) script(a *fakecql.Attempt) fakecql.Outcome {
@@ -100,6 +101,16 @@ func (rr *reqRun) script(a *fakecql.Attempt) fakecql.Outcome {
 		k = sc.Outcomes[a.N-1]
 	}
 	switch k {
+	case "idle_close":
+		// the node falls silent (this request and every heartbeat stay unanswered): the proxy itself gives the
+		// connection up when the idle timeout passes
+		ip := a.Node.IP
+		go func() {
+			rr.e.C.Mute(ip, true)
+			time.Sleep(900 * time.Millisecond)
+			rr.e.C.Mute(ip, false)
+		}()
+		return fakecql.Outcome{Kind: fakecql.Silent}
 	case "silent_drop":
 		cn := a.Conn
 		go func() { time.Sleep(30 * time.Millisecond); cn.Close("script-delayed") }()
@@ -120,6 +131,24 @@ func (rr *reqRun) script(a *fakecql.Attempt) fakecql.Outcome {
 		return fakecql.Outcome{Kind: fakecql.ServerErr}
 	}
 	out := fakecql.Outcome{Kind: k}
+	// an outcome class of RequestObs stands for every concrete error of that class: rotate through its members
+	vn := int(atomic.AddInt64(&rr.variant, 1))
+	switch k {
+	case fakecql.WTOther:
+		wts := []primitive.WriteType{primitive.WriteTypeSimple, primitive.WriteTypeBatch, primitive.WriteTypeUnloggedBatch, primitive.WriteTypeCounter,
+			primitive.WriteTypeCas, primitive.WriteTypeView, primitive.WriteTypeCdc}
+		out.WriteType = wts[vn%len(wts)]
+	case fakecql.RTSame:
+		rb := [][2]int32{{2, 2}, {3, 2}, {1, 1}}[vn%3]
+		out.Received, out.BlockFor = rb[0], rb[1]
+	case fakecql.RTOther:
+		// not enough replicas answered (with or without data), or enough answered and the data was present
+		rbd := []struct {
+			r, b int32
+			d    bool
+		}{{1, 2, false}, {1, 2, true}, {2, 2, true}, {0, 1, false}, {3, 2, true}}[vn%5]
+		out.Received, out.BlockFor, out.DataPresent = rbd.r, rbd.b, rbd.d
+	}
 	if rr.maxDelay > 0 {
 		out.Delay = time.Duration(rr.intn(rr.maxDelay*1000)) * time.Microsecond
 	}
@@ -282,6 +311,7 @@ type roundOpts struct {
 	stallMs     int  // hold back the answer to one heartbeat per data connection for this long
 	holdMs      int  // hold back every scripted answer for this long (requests pile up on the connection)
 	noDrops     bool // no scripted connection drops at all (also not for re-PREPAREs)
+	idleClose   bool // short heartbeat interval / idle timeout: connections of a silent node are closed by the proxy
 }
 
 func runRound(scs []*reqScenario, nodes, numConns, nclients, workers int, out string, st *reqStats, dropRate float64, salt int64, maxDelay int, ro roundOpts) error {
@@ -290,6 +320,9 @@ func runRound(scs []*reqScenario, nodes, numConns, nclients, workers int, out st
 	if ro.override {
 		// every request of this driver uses LOCAL_QUORUM: all non-SELECT requests are re-encoded by the proxy
 		eo.Unsupported, eo.Override = []string{"LOCAL_QUORUM", "EACH_QUORUM"}, "QUORUM"
+	}
+	if ro.idleClose {
+		eo.HeartBeat, eo.ConnectTimeout, eo.Idle = 100*time.Millisecond, 250*time.Millisecond, 400*time.Millisecond
 	}
 	if ro.stallMs > 0 {
 		// heartbeats every 150 ms that give up after 300 ms
@@ -513,6 +546,7 @@ func init() {
 		stallMs := fs.Int("stall", 0, "answer one heartbeat per data connection this many ms late")
 		holdMs := fs.Int("hold", 0, "hold back every scripted answer this many ms")
 		noDrops := fs.Bool("nodrops", false, "random scenarios never drop connections")
+		idleClose := fs.Bool("idleclose", false, "random scenarios include nodes falling silent until the proxy closes their connections (idle timeout 400 ms)")
 		override := fs.Bool("override", false, "configure an unsupported-write-consistency override matching the workload's writes")
 		_ = fs.Parse(args)
 		os.Remove(*out)
@@ -523,6 +557,9 @@ func init() {
 				"wt_batchlog", "wt_other", "rfail", "wfail", "invalid", "syntax", "drop", "silent_drop", "unprepared"}
 			for i := 0; i < *okBias*4; i++ {
 				alpha = append(alpha, "ok")
+			}
+			if *idleClose {
+				alpha = append(alpha, "idle_close", "idle_close", "idle_close")
 			}
 			if *noDrops {
 				var a2 []string
@@ -565,7 +602,7 @@ func init() {
 				j = len(scs)
 			}
 			if err := runRound(scs[i:j], *nodes, *numConns, *nclients, *workers, *out, st, *dropRate, int64(k), *maxDelay,
-				roundOpts{compression: *compression, restarts: *restarts, addNode: *addNode, stallMs: *stallMs, holdMs: *holdMs, override: *override, noDrops: *noDrops}); err != nil {
+				roundOpts{compression: *compression, restarts: *restarts, addNode: *addNode, stallMs: *stallMs, holdMs: *holdMs, override: *override, noDrops: *noDrops, idleClose: *idleClose}); err != nil {
 				return err
 			}
 		}
